@@ -7,6 +7,8 @@
    harness on Rust's char (bit 1 is_numeric, 2 is_alphanumeric, 4 is_english_lingual, 8 is_whitespace); the
    ASCII classes are the ones the theorems assume (and the harness checks against Rust on every run).
    url_tail / email_tail are Model/C17Tails.v (run_lex_full / run_doc_full); "X" = a non-ASCII character without class bits.
+     E cps | cp:bits ...   -> the WHOLE modelled Document::parse incl. condense_ellipsis / condense_latin / metadata loop
+                              (C17Later.run_final_full): "<all tokens s e k a;...> # <lints>" or "P"
      F cps                 -> C17Float.run_f64_digits: the correctly rounded binary64 value of the digit string and
                               correct_suffix_for_f64 on it: "<16 hex digits of the bits> <suffix code 0..4>"
      G neg m e | G nan | G inf neg -> C17Float.run_f64_parts / run_f64_special on the datum (-1)^neg * m * 2^e
@@ -89,6 +91,11 @@ let () =
                 | None -> print_endline "P"
                 | Some (nums, lints) ->
                     print_endline (String.trim (String.concat ";" (List.map num_str nums) ^ " # " ^
+                      (match lints with None -> "U" | Some ls -> String.concat ";" (List.map lint_str ls)))))
+      | 'E' -> (match run_final_full u text with
+                | None -> print_endline "P"
+                | Some (toks, lints) ->
+                    print_endline (String.trim (String.concat ";" (List.map tok_str toks) ^ " # " ^
                       (match lints with None -> "U" | Some ls -> String.concat ";" (List.map lint_str ls)))))
       | _ -> print_endline "?"
     with Outside -> print_endline "X")
